@@ -140,6 +140,8 @@ type sessOpts struct {
 	Pad      int
 	Fault    *faultSpec
 	NoClone  bool
+	Raw      bool // the peer is a rawPeer (no agent library), optionally answering one request wrongly
+	ReqFault *reqFault
 	OnOut    func(edge.Message) // called from the consumer goroutine for every message taken from Out()
 }
 
@@ -151,6 +153,7 @@ type session struct {
 	out       *agentOut
 	srvOut    *agentOut // the server's writer in front of toAgent (frame boundaries of that direction)
 	strayKA   int       // keepalive requests the driver put into the server->agent stream
+	raw       *rawPeer
 	ag        *agent.Agent
 	h         *echoHandler
 	diag      *recDiag
@@ -175,19 +178,24 @@ func newSession(o sessOpts) *session {
 	s.out.cond = sync.NewCond(&s.out.mu)
 	s.srvOut = &agentOut{p: s.toAgent}
 	s.srvOut.cond = sync.NewCond(&s.srvOut.mu)
-	s.ag = agent.New(s.toAgent, s.out)
-	s.h = &echoHandler{a: s.ag, pad: o.Pad, wants: o.Wants, provides: o.Provides, fault: o.Fault, noClone: o.NoClone}
-	s.h.raw = func(b []byte) {
-		s.out.afterFrames(s.h.handed(), func() { s.fromAgent.Write(b) })
+	if o.Raw {
+		s.raw = newRawPeer(s.toAgent, s.out, o.ReqFault, o.Pad)
+		go func() { <-s.raw.done; s.agentDone <- nil }()
+	} else {
+		s.ag = agent.New(s.toAgent, s.out)
+		s.h = &echoHandler{a: s.ag, pad: o.Pad, wants: o.Wants, provides: o.Provides, fault: o.Fault, noClone: o.NoClone}
+		s.h.raw = func(b []byte) {
+			s.out.afterFrames(s.h.handed(), func() { s.fromAgent.Write(b) })
+		}
+		s.h.closeFn = func() {
+			s.out.afterFrames(s.h.handed(), func() { s.fromAgent.Close() })
+		}
+		s.ag.Handler = s.h
+		if err := s.ag.Start(); err != nil {
+			panic(err)
+		}
+		go func() { s.agentDone <- s.ag.Wait() }()
 	}
-	s.h.closeFn = func() {
-		s.out.afterFrames(s.h.handed(), func() { s.fromAgent.Close() })
-	}
-	s.ag.Handler = s.h
-	if err := s.ag.Start(); err != nil {
-		panic(err)
-	}
-	go func() { s.agentDone <- s.ag.Wait() }()
 	var abortOnce, killOnce sync.Once
 	// production wiring (UDFSocket.Open / UDFProcess.Open): a bufio.Reader around the peer's output
 	s.srv = udf.NewServer("task", "node", bufio.NewReader(s.fromAgent), s.srvOut, s.diag, o.Timeout,
